@@ -366,3 +366,212 @@ pub fn fp(site: usize) {
         }
     }
 }
+
+// ---------------------------------------------------------------------------------------------
+// Re-exports and thin wrappers for crate-private items
+// ---------------------------------------------------------------------------------------------
+
+pub use crate::scheduler::verif_hooks::verif_set_worker_ordinal as set_worker_ordinal;
+pub use crate::util::verif_hooks::{
+    FreeList, IntArrayFreeList, RawMemoryFreeList, FAILURE as FREELIST_FAILURE, MAX_HEADS,
+    MAX_UNITS,
+};
+pub use crate::util::heap::blockpageresource::BlockPool;
+pub use crate::util::heap::gc_trigger::verif_hooks::VerifMemBalancer;
+pub use crate::util::heap::layout::verif_hooks::{
+    ChunkStateMmapper, CreateFreeListResult, Map32, Mmapper, VMMap,
+};
+pub use crate::util::heap::space_descriptor::SpaceDescriptor;
+pub use crate::util::metadata::mark_bit::MarkState;
+pub use crate::util::object_forwarding::{
+    attempt_to_forward, clear_forwarding_bits, forward_object, get_forwarding_status,
+    is_forwarded, is_forwarded_or_being_forwarded, read_forwarding_pointer,
+    spin_and_get_forwarded_object, state_is_being_forwarded,
+    state_is_forwarded_or_being_forwarded, write_forwarding_pointer,
+};
+pub use crate::util::treadmill::TreadMill;
+
+use crate::util::metadata::side_metadata::{SideMetadataContext, SideMetadataSpec};
+use crate::util::Address;
+use crate::vm::VMBinding;
+
+/// Set the process-wide VM layout (what `MMTKBuilder::set_vm_layout` does), for harness processes
+/// that drive layout-dependent components without building an `MMTK` instance.
+pub fn set_vm_layout(layout: crate::util::heap::layout::vm_layout::VMLayout) {
+    crate::util::heap::layout::vm_layout::VMLayout::set_custom_vm_layout(layout)
+}
+
+/// Initialize the side metadata base and the VM's side specs, as `MMTK::new` does.
+pub fn initialize_side_metadata<VM: VMBinding>() {
+    use crate::util::options::Options;
+    crate::util::metadata::side_metadata::initialize_side_metadata::<VM>(&Options::default());
+}
+
+/// Map side metadata of `specs` (used as local specs) for the data range `[start, start+size)`.
+pub fn map_side_metadata(specs: &[SideMetadataSpec], start: Address, size: usize) -> bool {
+    let ctx = SideMetadataContext {
+        global: vec![],
+        local: specs.to_vec(),
+    };
+    ctx.try_map_metadata_space(start, size, "verif").is_ok()
+}
+
+/// The metadata address of `data_addr` in `spec`.
+pub fn address_to_meta_address(spec: &SideMetadataSpec, data_addr: Address) -> Address {
+    crate::util::metadata::side_metadata::address_to_meta_address(spec, data_addr)
+}
+
+/// The bit shift of `data_addr`'s field inside its metadata byte.
+pub fn meta_byte_lshift(spec: &SideMetadataSpec, data_addr: Address) -> u8 {
+    crate::util::metadata::side_metadata::verif_hooks::meta_byte_lshift(spec, data_addr)
+}
+
+/// Size of the metadata address range of a spec (covering the whole address space).
+pub fn metadata_address_range_size(spec: &SideMetadataSpec) -> usize {
+    crate::util::metadata::side_metadata::verif_hooks::metadata_address_range_size(spec)
+}
+
+/// Run the real `SideMetadataSanity::verify_metadata_context` on a fresh sanity checker with the
+/// given global and local specs.  Panics exactly when mmtk-core would panic at plan creation.
+pub fn sanity_verify_context(global: &[SideMetadataSpec], local: &[SideMetadataSpec]) {
+    let mut sanity = crate::util::metadata::side_metadata::SideMetadataSanity::new();
+    let ctx = SideMetadataContext {
+        global: global.to_vec(),
+        local: local.to_vec(),
+    };
+    sanity.verify_metadata_context("verif-policy", &ctx);
+}
+
+/// `revisitable_group_by` over a vector: returns `(key, reported len, items)` per group.
+pub fn rev_group_by<T: Clone, K: PartialEq + Copy, F: FnMut(&T) -> K>(
+    items: &[T],
+    f: F,
+) -> Vec<(K, usize, Vec<T>)> {
+    use crate::util::rust_util::rev_group::RevisitableGroupByForIterator;
+    items
+        .iter()
+        .cloned()
+        .revisitable_group_by(f)
+        .map(|g| (g.key, g.len, g.collect()))
+        .collect()
+}
+
+/// Like [`rev_group_by`], but only takes `take(i, len)` items from the i-th group before moving
+/// on to the next group (the groups must be independent of how far they were consumed), and the
+/// input is a slice of slices flattened the way the chunk-state mmapper uses it.
+pub fn rev_group_by_partial<T: Clone, K: PartialEq + Copy, F: FnMut(&T) -> K>(
+    slices: &[Vec<T>],
+    f: F,
+    mut take: impl FnMut(usize, usize) -> usize,
+) -> Vec<(K, usize, Vec<T>)> {
+    use crate::util::rust_util::rev_group::RevisitableGroupByForIterator;
+    let mut out = vec![];
+    for (i, g) in slices
+        .iter()
+        .flatten()
+        .cloned()
+        .revisitable_group_by(f)
+        .enumerate()
+    {
+        let n = take(i, g.len);
+        let key = g.key;
+        let len = g.len;
+        out.push((key, len, g.take(n).collect()));
+    }
+    out
+}
+
+/// Mark-sweep size classes.
+pub mod ms {
+    use crate::policy::marksweepspace::native_ms as bl;
+    use crate::vm::VMBinding;
+    /// Largest bin index.
+    pub const MAX_BIN: usize = bl::MAX_BIN;
+    /// Cell size of the largest bin.
+    pub const MAX_BIN_SIZE: usize = bl::MAX_BIN_SIZE;
+    /// Largest object size served by the free-list allocator.
+    pub const MI_LARGE_OBJ_SIZE_MAX: usize = bl::MI_LARGE_OBJ_SIZE_MAX;
+    /// The bin for a request.
+    pub fn mi_bin<VM: VMBinding>(size: usize, align: usize) -> usize {
+        bl::mi_bin::<VM>(size, align)
+    }
+    /// Cell sizes of all bins, as stored in a freshly created set of block lists.
+    pub fn bin_sizes() -> Vec<usize> {
+        let lists = bl::new_empty_block_lists();
+        lists.iter().map(|l| l.size).collect()
+    }
+    /// Bytes in a mark-sweep block.
+    pub fn block_bytes() -> usize {
+        use crate::util::linear_scan::Region;
+        crate::policy::marksweepspace::native_ms::Block::BYTES
+    }
+}
+
+/// Compressor forwarding metadata driven on a caller-provided region.
+pub mod compressor {
+    use crate::policy::compressor::forwarding::{
+        CompressorRegion, ForwardingMetadata, MARK_SPEC, OFFSET_VECTOR_SPEC,
+    };
+    use crate::util::linear_scan::Region;
+    use crate::util::metadata::side_metadata::SideMetadataSpec;
+    use crate::util::{Address, ObjectReference};
+    use crate::vm::VMBinding;
+    use std::sync::atomic::Ordering;
+
+    /// The two side specs the Compressor's forwarding uses.
+    pub fn specs() -> [SideMetadataSpec; 2] {
+        [MARK_SPEC, OFFSET_VECTOR_SPEC]
+    }
+    /// Region size in bytes.
+    pub const REGION_BYTES: usize = CompressorRegion::BYTES;
+
+    /// Wrapper around the real `ForwardingMetadata`.
+    pub struct Forwarding<VM: VMBinding>(ForwardingMetadata<VM>);
+
+    impl<VM: VMBinding> Default for Forwarding<VM> {
+        fn default() -> Self {
+            Self::new()
+        }
+    }
+
+    impl<VM: VMBinding> Forwarding<VM> {
+        /// New.
+        pub fn new() -> Self {
+            Self(ForwardingMetadata::new())
+        }
+        /// What `CompressorSpace::trace_mark_object` does to the mark bitmap for a newly marked
+        /// object: set the bit of the first word, then of the last word.
+        pub fn mark_object(&self, object: ObjectReference) {
+            MARK_SPEC.fetch_or_atomic::<u8>(
+                object.to_object_start::<VM>(),
+                1,
+                Ordering::SeqCst,
+            );
+            self.0.mark_last_word_of_object(object);
+        }
+        /// Compute the offset vector of the region starting at `region_start` up to `cursor`.
+        pub fn calculate_offset_vector(&self, region_start: Address, cursor: Address) {
+            self.0.calculate_offset_vector(
+                CompressorRegion::from_aligned_address(region_start),
+                cursor,
+            );
+        }
+        /// Forwarding address of the object starting at `address`.
+        pub fn forward(&self, address: Address) -> Address {
+            self.0.forward(address)
+        }
+        /// Visit marked objects.
+        pub fn scan_marked_objects(
+            &self,
+            start: Address,
+            end: Address,
+            f: &mut impl FnMut(ObjectReference),
+        ) {
+            self.0.scan_marked_objects(start, end, f)
+        }
+        /// Reset (does not clear the bitmaps).
+        pub fn release(&self) {
+            self.0.release()
+        }
+    }
+}
